@@ -48,7 +48,8 @@ WRITER_API = ('__init__', 'new_change', 'new_file', 'write_preamble',
               'write_meta', 'write_diff')
 
 
-def make_engine(stub_writer=False, stats_stubs=False):
+def make_engine(stub_writer=False, stats_stubs=False, trace_writer=False,
+                list_reader=False):
     from contracts import writer as W, text_utils as T
     eng = verify.Engine()
     eng.inline_all_repo = True
@@ -66,6 +67,15 @@ def make_engine(stub_writer=False, stats_stubs=False):
             eng.add(verify.Contract(W.QN + m, params={},
                                     raises={Exception: None}))
     scenario.install(eng)
+    if trace_writer:
+        register_trace_writer(eng)
+    if list_reader:
+        # the streaming reader seen from the object-model reader: an
+        # iterable of records (what the records are is C01/C03/C10-C12)
+        def f_list_reader(it, a, k):
+            recs = a[0]
+            return VFunc(lambda it2, a2, k2: recs, 'reader_over_list')
+        eng.spec_funcs['LIST_READER'] = VFunc(f_list_reader, 'LIST_READER')
     if stats_stubs:
         register_stats_stubs(eng)
         import z3 as _z3
@@ -594,4 +604,266 @@ after = SNAP(c0f0)
 ''', [('file_stats', 'SAME(SPEC_FILE_STATS(before), after)'),
       ('nothing_else', 'SAME(others, SNAP(d.meta_section, '
                        'c0.meta_section))')], (Exception,), opt))
+    return out
+
+
+# --- C05 / C06: the object-model writer drives the streaming writer -------
+# exactly as the specification traversal of the tree prescribes
+WRITER_DEFAULTS = {
+    '__init__': {'encoding': 'utf-8', 'version': '1.0'},
+    'new_change': {'encoding': None},
+    'new_file': {'encoding': None},
+    'write_preamble': {'encoding': None, 'indent': 4, 'line_endings': None,
+                       'mimetype': None},
+    'write_meta': {'encoding': None, 'meta_format': 'json',
+                   'line_endings': None},
+    'write_diff': {'diff_type': None, 'encoding': None,
+                   'line_endings': None},
+}
+CONTENT_ARG = {'preamble': 'text', 'meta': 'metadata', 'diff': 'content'}
+REMAP = {'diff': {'type': 'diff_type'}, 'meta': {'format': 'meta_format'}}
+
+
+def register_trace_writer(eng):
+    """Streaming writer stub that records every call with its bound
+    arguments (ghost trace) and has no other effect."""
+    import z3
+    from contracts import writer as W
+    from pyvc.values import Val, VBox, VStr, VNone
+    from pyvc.symex import truth
+
+    def recorder(m):
+        def effect(it, bound):
+            tr = it.ctx.ghost.setdefault('trace', [])
+            tr.append((m, {k: v for k, v in bound.items() if k != 'self'}))
+            return VNone
+        return effect
+    for m in WRITER_API:
+        eng.add(verify.Contract(W.QN + m, params={},
+                                call_effect=recorder(m)))
+
+    def py_val(x):
+        from pyvc.values import from_py
+        return from_py(x)
+
+    def val_term(ctx, v):
+        """z3 term (Val) or structural snapshot for an argument value."""
+        return scenario.snap_value(ctx, v, {})
+
+    def expected_calls(ctx, dobj):
+        calls = []
+
+        def opts_of(sec):
+            return {k: x for k, x in sec[3]['options'][1].items()}
+
+        def content_section(sec, name):
+            c = sec[3]['_content']
+            if c[0] == 'dict':
+                nonempty = bool(c[1])
+            else:
+                nonempty = ctx.branch(truth(ctx, VBox(c[1])))
+            if not nonempty:
+                return
+            args = {CONTENT_ARG[name]: c}
+            for k, x in opts_of(sec).items():
+                args[REMAP.get(name, {}).get(k, k)] = x
+            calls.append(('write_' + name, args))
+
+        def container(obj, name, first, second):
+            a = obj[3]
+            if name == 'diffx':
+                o = dict(opts_of(obj))
+                args = {}
+                if 'version' in o:
+                    args['version'] = o.pop('version')
+                args['encoding'] = o.pop('encoding', ('val', Val.NoneV))
+                args.update(o)
+                calls.append(('__init__', args))
+            else:
+                calls.append(('new_' + name, dict(opts_of(obj))))
+            content_section(a[first + '_section'], first)
+            content_section(a[second + '_section'], second)
+            if name == 'diffx':
+                for c in a['changes'][1]:
+                    container(c, 'change', 'preamble', 'meta')
+            elif name == 'change':
+                for f in a['files'][1]:
+                    container(f, 'file', 'meta', 'diff')
+        container(dobj, 'diffx', 'preamble', 'meta')
+        return calls
+
+    def f_TRACE_IS_SPEC(it, args, kw):
+        ctx = it.ctx
+        saved = ctx.spec_mode
+        ctx.spec_mode = 0
+        try:
+            exp = expected_calls(ctx, args[0].s[0])
+        finally:
+            ctx.spec_mode = saved
+        got = ctx.ghost.get('trace', [])
+        if [m for m, _ in exp] != [m for m, _ in got]:
+            return VBool(False)
+        conj = []
+        for (m, ea), (_, ga) in zip(exp, got):
+            dflt = WRITER_DEFAULTS[m]
+            names = set(ga) - {'fp'}
+            if set(ea) - names:
+                return VBool(False)      # an argument the API does not have
+            for n in sorted(names):
+                g = scenario.normalise(val_term(ctx, ga[n]))
+                e = scenario.normalise(
+                    ea[n] if n in ea else val_term(ctx, py_val(dflt[n])))
+                conj.append(scenario.snaps_equal(e, g))
+        return VBool(z3.And(conj + [z3.BoolVal(True)]))
+    eng.spec_funcs['TRACE_IS_SPEC'] = VFunc(f_TRACE_IS_SPEC, 'TRACE_IS_SPEC')
+
+
+def c05_scenarios(tier):
+    out = []
+    opt = {'trace_writer': True}
+
+    def tree(shape, empties=False):
+        lines = ['d = DiffX()',
+                 "d.options['encoding'] = SYM_STR()",
+                 'd.preamble = SYM_STR()',
+                 "d.preamble_section.options['indent'] = SYM_INT()",
+                 "d.preamble_section.options['mimetype'] = SYM_BOX()",
+                 "d.meta = {'k': SYM_BOX()}",
+                 "d.meta_section.options['encoding'] = SYM_BOX()"]
+        for ci, nf in enumerate(shape):
+            c = 'c%d' % ci
+            lines += ['%s = d.add_change()' % c,
+                      "%s.options['encoding'] = SYM_BOX()" % c,
+                      '%s.preamble = SYM_STR()' % c,
+                      "%s.preamble_section.options['line_endings'] = "
+                      "SYM_BOX()" % c]
+            if not empties:
+                lines.append("%s.meta = {'id': SYM_BOX()}" % c)
+            else:
+                lines.append("%s.meta_section.options['encoding'] = "
+                             "SYM_BOX()" % c)
+            for fi in range(nf):
+                f = '%sf%d' % (c, fi)
+                lines += ['%s = %s.add_file()' % (f, c),
+                          "%s.options['encoding'] = SYM_BOX()" % f,
+                          "%s.meta = {'path': SYM_BOX()}" % f,
+                          "%s.meta_section.options['format'] = SYM_BOX()"
+                          % f,
+                          '%s.diff = SYM_BYTES()' % f,
+                          "%s.diff_section.options['type'] = SYM_BOX()" % f,
+                          "%s.diff_section.options['line_endings'] = "
+                          "SYM_BOX()" % f,
+                          "%s.diff_section.options['encoding'] = SYM_BOX()"
+                          % f]
+        return '\n'.join(lines) + '\n'
+    shapes = [((1,), False), ((2,), True), ((1, 1), False), ((), False)]
+    if tier != 'quick':
+        shapes += [((2, 1), False), ((0, 1), True)]
+    for shape, emp in shapes:
+        name = 'c05.writer_calls.%s%s' % (
+            'x'.join(map(str, shape)) or 'empty', '.empties' if emp else '')
+        out.append((name, tree(shape, emp) + '''
+before = SNAP(d)
+w = DiffXDOMWriter()
+w.write_stream(d, io.BytesIO())
+''', [('calls_are_the_specification_traversal', 'TRACE_IS_SPEC(before)'),
+      ('tree_unchanged', 'SAME(before, SNAP(d))')], (), opt))
+    return out
+
+
+def c06_scenarios(tier):
+    """The object-model reader builds, from a record sequence, exactly the
+    tree the rules prescribe (options verbatim minus length, content as
+    reported, fresh defaults elsewhere)."""
+    out = []
+
+    def rec(var, sid, opts, content=None):
+        level = len(sid) - len(sid.lstrip('.'))
+        items = ["'level': %d" % level, "'line': SYM_INT()",
+                 "'section': '%s'" % sid, "'type': '%s'" % sid.lstrip('.'),
+                 "'options': %s" % opts]
+        if content:
+            items.append(content)
+        return '%s = {%s}' % (var, ', '.join(items))
+
+    def scenario_for(shape, name):
+        lines = ["o_main = {'encoding': SYM_STR(), 'version': '1.0'}",
+                 rec('r0', 'diffx', 'dict(o_main)'),
+                 "t_pre = SYM_STR()",
+                 "o_pre = {'indent': SYM_INT(), 'line_endings': SYM_BOX(), "
+                 "'mimetype': SYM_BOX()}",
+                 rec('r1', '.preamble', "dict(o_pre, length=SYM_INT())",
+                     "'text': t_pre"),
+                 "m_main = {'k': SYM_BOX()}",
+                 "o_meta = {'format': 'json', 'encoding': SYM_BOX()}",
+                 rec('r2', '.meta', "dict(o_meta, length=SYM_INT())",
+                     "'metadata': m_main")]
+        recs = ['r0', 'r1', 'r2']
+        exp = ['e = DiffX()', 'e.options.clear()',
+               'e.options.update(o_main)', 'e.preamble = t_pre',
+               'e.preamble_section.options.clear()',
+               'e.preamble_section.options.update(o_pre)',
+               'e.meta = m_main', 'e.meta_section.options.clear()',
+               'e.meta_section.options.update(o_meta)']
+        n = 3
+        for ci, nf in enumerate(shape):
+            c = 'c%d' % ci
+            lines += ["o_%s = {'encoding': SYM_STR()}" % c,
+                      rec('r%d' % n, '.change', 'dict(o_%s)' % c)]
+            recs.append('r%d' % n)
+            n += 1
+            exp += ['e%s = e.add_change()' % c,
+                    'e%s.options.update(o_%s)' % (c, c)]
+            if ci == 0:
+                lines += ["t_%s = SYM_STR()" % c,
+                          "o_%sp = {'line_endings': SYM_BOX()}" % c,
+                          rec('r%d' % n, '..preamble',
+                              'dict(o_%sp, length=SYM_INT())' % c,
+                              "'text': t_%s" % c)]
+                recs.append('r%d' % n)
+                n += 1
+                exp += ['e%s.preamble = t_%s' % (c, c),
+                        'e%s.preamble_section.options.clear()' % c,
+                        'e%s.preamble_section.options.update(o_%sp)'
+                        % (c, c)]
+            for fi in range(nf):
+                f = '%sf%d' % (c, fi)
+                lines += ["o_%s = {}" % f,
+                          rec('r%d' % n, '..file', 'dict(o_%s)' % f),
+                          "m_%s = {'path': SYM_BOX()}" % f,
+                          "o_%sm = {'format': SYM_BOX()}" % f,
+                          rec('r%d' % (n + 1), '...meta',
+                              'dict(o_%sm, length=SYM_INT())' % f,
+                              "'metadata': m_%s" % f),
+                          "b_%s = SYM_BYTES()" % f,
+                          "o_%sd = {'type': SYM_BOX(), 'line_endings': "
+                          "SYM_BOX()}" % f,
+                          rec('r%d' % (n + 2), '...diff',
+                              'dict(o_%sd, length=SYM_INT())' % f,
+                              "'diff': b_%s" % f)]
+                recs += ['r%d' % n, 'r%d' % (n + 1), 'r%d' % (n + 2)]
+                n += 3
+                exp += ['e%s = e%s.add_file()' % (f, c),
+                        'e%s.meta = m_%s' % (f, f),
+                        'e%s.meta_section.options.clear()' % f,
+                        'e%s.meta_section.options.update(o_%sm)' % (f, f),
+                        'e%s.diff = b_%s' % (f, f),
+                        'e%s.diff_section.options.clear()' % f,
+                        'e%s.diff_section.options.update(o_%sd)' % (f, f)]
+        lines.append('recs = [%s]' % ', '.join(recs))
+        lines += ['r = DiffXDOMReader(DiffX)',
+                  'r.reader_cls = LIST_READER(recs)',
+                  't = r.parse(io.BytesIO(b""))',
+                  'other = DiffX()', 'pristine = SNAP(DiffX())']
+        lines += exp
+        return (name, '\n'.join(lines) + '\n',
+                [('tree_is_what_the_records_say', 'SAME(SNAP(t), SNAP(e))'),
+                 ('defaults_untouched', 'SAME(SNAP(other), pristine)')],
+                (), {'list_reader': True})
+    shapes = [(1,), (1, 1), ()]
+    if tier != 'quick':
+        shapes += [(2,), (2, 1)]
+    for shape in shapes:
+        out.append(scenario_for(shape, 'c06.reader_tree.%s' % (
+            'x'.join(map(str, shape)) or 'empty')))
     return out
